@@ -22,3 +22,8 @@ add("C16", "generate_valid, valid_iff, replace_nil/only_named/WF, equality is an
 add("C18", "the regex matcher is proved equal to the documented grammar (sound + complete, any string, abstract character classes), "
            "round trip / normalisation, registry state machine laws; shipped ids generated from jumanji/__init__.py and checked by "
            "decide +kernel; id strings (ASCII + Unicode) and random register/make sequences run through the real module and the model", _note)
+
+add("C07", "step_consistent / conserved theorems per modelled grid or game environment; Consistent (the Lean predicate) evaluated on every "
+           "non-terminal implementation state under legal, random and adversarial play", _note)
+add("C09", "refinement theorems L1 (transliteration) = L2 (readable rules) per modelled environment, e.g. the 2048 row loop = "
+           "compress/merge/pad for rows of any length; every visited and synthetic transition replayed on the model", _note)
